@@ -34,7 +34,9 @@ md = ['## 11. Seeded changes: which checks catch which\n',
 s = open(H + '/DESIGN.md').read()
 i = s.find('## 11. Seeded changes')
 if i >= 0:
-    j = s.find('\n## 12.', i)
+    import re as _re
+    _m = _re.search(r'\n## (?!11\.)', s[i + 5:])
+    j = (i + 5 + _m.start()) if _m else -1
     s = s[:i] + '\n'.join(md) + '\n' + (s[j:] if j >= 0 else '')
 else:
     s = s.rstrip('\n') + '\n\n' + '\n'.join(md) + '\n'
